@@ -433,7 +433,8 @@ func findMaxOccurence(row []int) int {
 	var max int = 0
 	var maxElem int
 	for k, v := range countmap {
-		if v > max {
+		// ties are broken by the smaller value, not by map order
+		if v > max || (v == max && k < maxElem) {
 			max = v
 			maxElem = k
 		}
